@@ -193,7 +193,8 @@ class CirqSimulator(Backend):
             # Convert counts to frequencies
             if self.n_shots:
                 self.all_frequencies = {k: v / self.n_shots for k, v in samples.items()}
-                frequencies = {k[:]: v / self.n_shots for k, v in samples.items()}
+            # Mid-circuit measurement results followed by the final measurements, with or without shots
+            frequencies = self.all_frequencies
 
         # Calculate final density matrix and sample from that for noisy simulation or simulating mixed states
         elif (self._noise_model or source_circuit.is_mixed_state) and not save_mid_circuit_meas:
